@@ -48,7 +48,9 @@ def one(u):
         if rc != 0:
             return u.name, None
         rc, so, se, t = core.sh(["goto-instrument", "--list-symbols", "u.gb"], 120, wd)
-        contracts = set(re.findall(r"^contract::(\S+)", so.decode(errors="replace"), re.M))
+        syms = so.decode(errors="replace")
+        contracts = set(re.findall(r"^contract::(\S+)", syms, re.M))
+        defined = set(re.findall(r"^(secp256k1_\w+) ", syms, re.M))     # goto-cc drops unused static functions: DFCC aborts on a replace target without a function symbol
         rc, so, se, t = core.sh(["goto-instrument", "--reachable-call-graph", "u.gb"], 120, wd)
         reach = set()
         for m in re.finditer(r"^(\S+) -> (\S+)", so.decode(errors="replace"), re.M):
@@ -56,7 +58,7 @@ def one(u):
         if not reach:
             return u.name, None
         have = set(u.replace) | set(u.enforce) | set(u.functions)
-        g = [f for f in HEAVY if f in contracts and f not in reach and f not in have]
+        g = [f for f in HEAVY if f in contracts and f in defined and f not in reach and f not in have]
         return u.name, g
     finally:
         shutil.rmtree(wd, ignore_errors=True)
